@@ -55,6 +55,15 @@ subcategory: Bakery
 match: huge and not contains("COFFEE")
 category: Large
 subcategory: L
+
+[Stream]
+match: contains("STREAM")
+category: Media
+subcategory: Online
+
+[Prime Stream]
+match: contains("STREAM") and contains("PRIME")
+category: Subscriptions
 '''
 RULES = 'huge = amount > 5000\n' + RULES
 
@@ -138,7 +147,7 @@ def check_explain_raw_command(mode):
         path = os.path.join(b.config, 'merchants.rules')
         cfg = load_config(b.config)
         supp = load_supplemental_sources(cfg, b.config)
-        for desc, amount in (('ORDER 78 STORE', 11.0), ('ORDER 12345 STORE', 11.0), ('PAY REF77 NEW', 5.0), ('CORNER BAKERY TWO', 8.0), ('COFFEE ROASTERS OUTLET', 650.0)):
+        for desc, amount in (('ORDER 78 STORE', 11.0), ('ORDER 12345 STORE', 11.0), ('PAY REF77 NEW', 5.0), ('CORNER BAKERY TWO', 8.0), ('COFFEE ROASTERS OUTLET', 650.0), ('STREAM PRIME VIDEO 8842', 14.99)):
             clear_engine_cache()
             rules = get_all_rules(path, match_mode=mode)
             tr = get_transforms(path, match_mode=mode)
@@ -169,7 +178,9 @@ def check_explain_description(mode):
         path = os.path.join(b.config, 'merchants.rules')
         for desc, amount in (('COFFEE SHOP', 4.5), ('SATURDAY MARKET STALL', 12.0), ('SATURDAY MARKET COFFEE', 5.0), ('POS CART 5', 7.0), ('NOTHING', 1.0),
                              ('COFFEE ROASTERS WHOLESALE', 650.0), ('COFFEE ROASTERS WHOLESALE', 20.0), ('PAY REF77 X', 5.0), ('PAY REF78 X', 5.0), ('CORNER BAKERY', 8.0),
-                             ('NEW CAR', 9000.0), ('NEW CAR', 90.0), ('POS SQ BLUE BOTTLE 44', 6.0), ('POS NOWHERE KNOWN', 2.0)):
+                             ('NEW CAR', 9000.0), ('NEW CAR', 90.0), ('POS SQ BLUE BOTTLE 44', 6.0), ('POS NOWHERE KNOWN', 2.0),
+                             # most_specific: category from the more specific rule, subcategory from the highest-ranked rule that sets one
+                             ('STREAM PRIME VIDEO 8842', 14.99), ('STREAM OTHER', 3.0)):
             clear_engine_cache()
             rules = get_all_rules(path, match_mode=mode)
             tr = get_transforms(path, match_mode=mode)
